@@ -22,15 +22,22 @@ Rules beyond py2coq / py2coq_server2 (whose expression rules are inherited):
   expressions are put in A-normal form: a call that can raise or that touches the filesystem is bound first,
       `match <call> with Ok t => .. | Err k m => <raise> | OutOfModel => OutOfModel end`, in Python's evaluation
       order; and / or / not / conditional expressions with such calls inside become decision trees (short circuit)
+  if T: A else: B with T free of such calls                -> one boolean (the decision tree of T) and one `if`, when A and B
+      need no narrowing; otherwise the decision tree of T with A / B at its leaves (the code that follows the `if` is
+      translated once per branch that reaches it)
   X is None / X is not None / truthiness of an Optional   -> match X with Some v => .. | None => ..; in the Some
       branch X has the inner type (a local is re-bound, an attribute expression is remembered as narrowed)
   for x in xs with break / continue / return               -> local fix; the variables the body re-assigns are its
       accumulators (found by analysis, no table of local names); `break` continues with the code after the loop
-  try: B except (C1, C2) [as e]: H ...                      -> let h := fun [w__] k m => if exc_isa k C1 || .. then H
-      else <outer raise> in B, every raise inside B being a call of h; a bare `raise` re-raises (k, m);
-      no else / finally; a handler that falls through is accepted only if B assigns nothing
+  try: B except (C1, C2) [as e]: H ...                      -> let h := fun [w__] xs k m => if exc_isa k C1 || .. then H
+      else <outer raise> in B, every raise inside B being a call of h; xs are the variables defined before the try
+      that B re-assigns: every raise passes the values they have at that point, so H (and the code after the try,
+      when H falls through) sees them; a variable first assigned in B is not defined in H (a use is refused);
+      a bare `raise` re-raises (k, m); no else / finally
   with contextlib.suppress(C..): B                          -> try: B except (C..): pass
-  with open(P, "xb") as F: F.write(E)                      -> one library call (exclusive creation + write)
+  with open(P, "xb") as F: B                               -> the library call l_open_new (exclusive creation), then B
+      with F standing for the open file (F.write(E) -> l_write; F is undefined after the block); leaving the
+      block (close) has no effect of its own
   import statements, docstrings, logger.* calls            -> skipped
   every Python identifier x is emitted as v_x (no capture of Coq globals)
 
@@ -46,7 +53,8 @@ TRUSTED TABLES (every entry is an assumption about a library or about the object
    generate_directory_listing(Q, s)        l_listing w Q s                                res gbody
    canonical_path_segments(s, clamp=b)     l_canon s b   (translated and tied in Equiv.v) res (list str)
    Q.mkdir(parents=True, exist_ok=True)    l_mkdir_parents w Q                            res unit * fs
-   with open(Q, "xb") as F: F.write(b)     l_write_new w Q b                              res unit * fs
+   open(Q, "xb")  (as a with item)         l_open_new w Q                                 res unit * fs
+   F.write(b)     (F bound by that with)   l_write w F b                                  res unit * fs
    os.replace(Q1, Q2)                      l_replace w Q1 Q2                              res unit * fs
    Q.unlink()                              l_unlink w Q                                   res unit * fs
    secrets.token_hex(n)                    l_token_hex n                                  str
@@ -94,6 +102,7 @@ LIB_METHODS = {
     ("path", "read_text", 0, (("encoding", "utf-8"),)): ("res", "(l_read_text L w__ {0})", [], "gbody"),
     ("path", "mkdir", 0, (("exist_ok", True), ("parents", True))): ("rw", "(l_mkdir_parents L w__ {0})", [], "unit"),
     ("path", "unlink", 0, ()): ("rw", "(l_unlink L w__ {0})", [], "unit"),
+    ("fh", "write", 1, ()): ("rw", "(l_write L w__ {0} {1})", ["str"], "unit"),
     ("path", "with_name", 1, ()): ("res", "(path_with_name {0} {1})", ["str"], "path"),
     ("path", "relative_to", 1, ()): ("res", "(path_relative_to {0} {1})", ["path"], "path"),
     ("str", "lower", 0, ()): ("pure", "(lower {0})", [], "str"),
@@ -121,7 +130,7 @@ def ctype(t):
     if isinstance(t, str):
         if t.startswith("obj:"): return OBJECTS[t[4:]]["coq"]
         return {"str": "Str.str", "bool": "bool", "N": "N", "Z": "Z", "path": "Fs.path", "upath": "StaticGlue.upath",
-                "gbody": "StaticGlue.gbody", "gresp": "StaticGlue.gresp", "unit": "unit"}.get(t) or bad(ast.Constant(value=t), "type")
+                "gbody": "StaticGlue.gbody", "gresp": "StaticGlue.gresp", "unit": "unit", "fh": "Fs.path"}.get(t) or bad(ast.Constant(value=t), "type")
     if t[0] == "list": return "(list %s)" % ctype(t[1])
     if t[0] == "opt": return "(option %s)" % ctype(t[1])
     raise Untranslatable("type %s" % (t,))
@@ -249,7 +258,7 @@ class PFn(SFn2):
                 m = OBJECTS[rt0[4:]].get("methods", {}).get(f.attr)
                 if m is None or e.args or e.keywords: bad(e, "method outside the OBJECTS table")
                 return dict(kind="pure", children=[f.value], emit=lambda a: m[0].format(*a), type=m[1])
-            if rt0 in ("path", "upath") or (rt0 == "str" and f.attr == "lower"):
+            if rt0 in ("path", "upath", "fh") or (rt0 == "str" and f.attr == "lower"):
                 try:
                     kws = tuple(sorted((k.arg, ast.literal_eval(k.value)) for k in e.keywords))
                 except Exception:
@@ -356,7 +365,10 @@ class PFn(SFn2):
 
     def ret_raise(self, k, m):
         if self.hstack:
-            return "(%s %s%s %s)" % (self.hstack[-1], "w__ " if self.rw else "", k, m)
+            hn, accs = self.hstack[-1]
+            for a in accs:
+                if a not in self.env: raise Untranslatable("variable %s of the enclosing try is not defined at a raise" % a)
+            return "(%s %s%s%s %s)" % (hn, "w__ " if self.rw else "", "".join(self.vname(a) + " " for a in accs), k, m)
         return "(Err %s %s, w__)" % (k, m) if self.rw else "(Err %s %s)" % (k, m)
     def ret_oom(self):
         return "(OutOfModel, w__)" if self.rw else "OutOfModel"
@@ -542,8 +554,13 @@ class PFn(SFn2):
 
     def try_stmt(self, body, handlers, nxt, node):
         """handlers: list of (class names or None, variable or None, statements)"""
-        falls = [h for h in handlers if not self.terminates(h[2])]
-        if falls and self.assigned(body): bad(node, "a handler falls through after a try body that assigns")
+        # the variables that exist before the try and that its body re-assigns: a handler (and the code after it)
+        # must see the value they have when the exception is raised, so they are parameters of the handler
+        # function and every raise passes their current values.  Variables first assigned inside the body are
+        # not defined in a handler: a use there is refused.
+        accs = sorted(a for a in self.assigned(body) if a in self.env)
+        for a in accs:
+            for key in [k for k in self.narrow if k == a or k.startswith(a + ".")]: del self.narrow[key]
         after = self.at(nxt)
         hn, kv, mv = self.fresh("h"), self.fresh("k"), self.fresh("m")
         def dispatch():
@@ -562,10 +579,11 @@ class PFn(SFn2):
                 code = "(if %s then %s else %s)" % (test, b, code)
             return code
         hcode = self.at(dispatch)()
-        self.hstack.append(hn)
+        bnd = "".join("(%s : %s) " % (self.vname(a), ctype(self.env[a])) for a in accs)
+        self.hstack.append((hn, accs))
         try: bcode = self.block(body, after)
         finally: self.hstack.pop()
-        return "(let %s := (fun %s(%s %s : Str.str) => %s) in %s)" % (hn, "(w__ : Fs.fs) " if self.rw else "", kv, mv, hcode, bcode)
+        return "(let %s := (fun %s%s(%s %s : Str.str) => %s) in %s)" % (hn, "(w__ : Fs.fs) " if self.rw else "", bnd, kv, mv, hcode, bcode)
 
     def block(self, stmts, k):
         if not stmts: return k()
@@ -646,15 +664,21 @@ class PFn(SFn2):
                and c.args and all(isinstance(a, ast.Name) for a in c.args) and not c.keywords:
                 return self.try_stmt(s.body, [([a.id for a in c.args], None, [ast.Pass()])], nxt, s)
             if isinstance(c, ast.Call) and ast.unparse(c.func) == "open" and len(c.args) == 2 and not c.keywords \
-               and isinstance(c.args[1], ast.Constant) and c.args[1].value == "xb" and isinstance(it.optional_vars, ast.Name) \
-               and len(s.body) == 1 and isinstance(s.body[0], ast.Expr) and isinstance(s.body[0].value, ast.Call):
-                w = s.body[0].value
-                if ast.unparse(w.func) == it.optional_vars.id + ".write" and len(w.args) == 1 and not w.keywords:
-                    def go(ps):
-                        if self.typeof(ps[0]) != "path" or self.typeof(ps[1]) != "str": bad(s, "open/write argument types")
-                        d = dict(kind="rw", type="unit", emit=lambda a: "(l_write_new L w__ %s %s)" % (a[0], a[1]))
-                        return self.emit_effect(s, d, ps, lambda _: nxt())
-                    return self.ev_list([c.args[0], w.args[0]], go)
+               and isinstance(c.args[1], ast.Constant) and c.args[1].value == "xb" and isinstance(it.optional_vars, ast.Name):
+                fh = it.optional_vars.id
+                if fh in self.env: bad(s, "file variable shadows a variable")
+                def opened(ps):
+                    if self.typeof(ps[0]) != "path": bad(s, "open() of a non-path")
+                    def body(_):
+                        # F stands for the open file; it is usable inside the block only
+                        self.env[fh] = "fh"
+                        def leave():
+                            self.env.pop(fh, None)
+                            return nxt()
+                        return "(let %s := %s in %s)" % (self.vname(fh), self.expr(ps[0]), self.block(s.body, leave))
+                    d = dict(kind="rw", type="unit", emit=lambda a: "(l_open_new L w__ %s)" % a[0])
+                    return self.emit_effect(s, d, ps, body)
+                return self.ev_list([c.args[0]], opened)
             bad(s, "with form")
         bad(s, "statement")
 
